@@ -77,6 +77,7 @@ func EnvInt(name string, def int) int {
 // Finding is one entry of known_findings.json.
 type Finding struct {
 	Property  string          `json:"property"`
+	AlsoProps []string        `json:"also_properties,omitempty"` // other properties whose checks meet the same root cause
 	ID        string          `json:"id"`
 	Status    string          `json:"status"` // open | fixed
 	What      string          `json:"what"`
@@ -139,13 +140,18 @@ type Collector struct {
 	extra      map[string]any
 	maxSamples int
 	survey     map[string]*surveyRec
+	curTags    []string
 }
 
 type surveyRec struct {
 	N      int
 	Detail string
 	Case   any
+	Inter  map[string]bool // tags present in every failing case
 }
+
+// SetTags records the feature tags of the case about to be reported (survey mode only).
+func (c *Collector) SetTags(tags []string) { c.mu.Lock(); c.curTags = tags; c.mu.Unlock() }
 
 type failRec struct {
 	Case any
@@ -158,7 +164,7 @@ func New(id, level, rule string, assumptions ...string) *Collector {
 		nontrivial: map[string]struct{}{}, classes: map[string]int{}, knownHits: map[string]int{},
 		knownOpen: map[string]Finding{}, extra: map[string]any{}, maxSamples: 4}
 	for _, f := range Findings() {
-		if f.Property == id && f.Status == "open" {
+		if f.Status == "open" && (f.Property == id || hasStr(f.AlsoProps, id)) {
 			c.knownOpen[f.Signature] = f
 			for _, a := range f.Also {
 				c.knownOpen[a] = f
@@ -246,8 +252,21 @@ func (c *Collector) Report(t TB, kase any, vs []Violation) {
 			}
 			r := c.survey[v.Signature]
 			if r == nil {
-				r = &surveyRec{Detail: v.Detail, Case: kase}
+				r = &surveyRec{Detail: v.Detail, Case: kase, Inter: map[string]bool{}}
+				for _, t := range c.curTags {
+					r.Inter[t] = true
+				}
 				c.survey[v.Signature] = r
+			} else {
+				cur := map[string]bool{}
+				for _, t := range c.curTags {
+					cur[t] = true
+				}
+				for t := range r.Inter {
+					if !cur[t] {
+						delete(r.Inter, t)
+					}
+				}
 			}
 			r.N++
 		}
@@ -360,7 +379,12 @@ func (c *Collector) finish(t *testing.T) {
 			if len(b) > 1500 && os.Getenv("VERIF_SURVEY") != "full" {
 				b = append(b[:1500], []byte("...")...)
 			}
-			printf("SURVEY %s n=%d known=%v\n   %s\n   case=%s\n", s, r.N, c.Open(s), r.Detail, b)
+			var inter []string
+			for t := range r.Inter {
+				inter = append(inter, t)
+			}
+			sort.Strings(inter)
+			printf("SURVEY %s n=%d known=%v\n   %s\n   always=%s\n   case=%s\n", s, r.N, c.Open(s), r.Detail, strings.Join(inter, " "), b)
 		}
 	}
 	if c.lastFail != nil && t.Failed() {
@@ -451,7 +475,7 @@ func AvoidTags(props ...string) map[string]bool {
 		}
 		ok := len(props) == 0
 		for _, p := range props {
-			if p == f.Property {
+			if p == f.Property || hasStr(f.AlsoProps, p) {
 				ok = true
 			}
 		}
@@ -463,4 +487,13 @@ func AvoidTags(props ...string) map[string]bool {
 		}
 	}
 	return out
+}
+
+func hasStr(l []string, x string) bool {
+	for _, y := range l {
+		if y == x {
+			return true
+		}
+	}
+	return false
 }
